@@ -120,8 +120,13 @@ def case_strategy():
         steps = []
         n = draw(st.integers(1, 4))
         for _ in range(n):
-            c = draw(st.sampled_from(["edit_prod", "edit_prod", "edit_body", "noop", "restart", "eval_prod"]))
-            if c == "edit_prod":
+            c = draw(st.sampled_from(["edit_prod", "edit_prod", "edit_body", "noop", "restart", "eval_prod", "switch"]))
+            if c == "switch":
+                # the code of the evaluated function is restructured (the producer moves before / after the load, or away)
+                steps.append(["switch", draw(st.sampled_from(["earlier_eval", "same_before", "same_after"]))])
+                if draw(st.booleans()):
+                    steps.append(["setvar", draw(st.integers(2, 4))])
+            elif c == "edit_prod":
                 steps.append(["setvar", draw(st.integers(2, 4))])
             elif c == "edit_body":
                 steps.append(["bump_prod"])
@@ -145,12 +150,15 @@ def check_case(case, ev=None, scratch=None):
     sess = Session(scratch, kind, cache)
     prog, root, p_entry, reader_kept = build(case["placement"], case["order"], case["producer"], case["noise"], case["multi"], case.get("kwarg", False))
     order = case["order"]
+    applied = []
     committed = {}
     seen_by_reader = set()
     stats = {"changes": 0, "reader_hits": 0, "reader_runs": 0}
 
+    cur_order = [order]
+
     def fail(msg):
-        raise Violation(f"[{case['placement']}/{order}/{case['producer']}/{kind}] {msg}; steps={case['steps']}", case)
+        raise Violation(f"[{case['placement']}/{order}->{cur_order[0]}/{case['producer']}/{kind}] {msg}; steps={case['steps']}", case)
 
     def eval_prod(cur):
         res = sess.eval(p_entry, "direct" if M.is_data(cur["funcs"][p_entry]) else "eval")
@@ -162,6 +170,7 @@ def check_case(case, ev=None, scratch=None):
         committed.update(it.kept)
 
     def eval_root(cur, si):
+        order = cur_order[0]
         res = sess.eval(root, "eval")
         if order in ("same_after", "same_after_populated", "never") and not (order == "never" and "/src/v" in committed):
             if res["exc"] is None:
@@ -199,12 +208,25 @@ def check_case(case, ev=None, scratch=None):
         eval_root(cur, -1)
         for si, stp in enumerate(case["steps"]):
             k = stp[0]
-            if k in ("setvar", "bump_prod"):
+            if k in ("setvar", "bump_prod", "switch"):
                 if k == "setvar":
-                    cur = M.apply_edit(cur, ["setvar", 0, stp[1] + si * 10])
-                else:
+                    applied.append(["setvar", 0, stp[1] + si * 10])
+                    cur = M.apply_edit(cur, applied[-1])
+                elif k == "bump_prod":
                     pb = [i for i, f in enumerate(cur["funcs"]) if f["name"] in ("prod", "prod_body")][0]
-                    cur = M.apply_edit(cur, ["bump", pb])
+                    applied.append(["bump", pb])
+                    cur = M.apply_edit(cur, applied[-1])
+                else:
+                    newo = stp[1]
+                    if newo == "earlier_eval" and "/src/v" not in committed:
+                        newo = "never"
+                    if newo == cur_order[0]:
+                        continue
+                    cur_order[0] = newo
+                    cur = build(case["placement"], newo, case["producer"], case["noise"], case["multi"], case.get("kwarg", False))[0]
+                    for e in applied:
+                        cur = M.apply_edit(cur, e)
+                    stats["switches"] = stats.get("switches", 0) + 1
                 stats["changes"] += 1
                 if case["inproc"] or kind == "memory":
                     sess.inproc_edit(cur)
@@ -212,7 +234,7 @@ def check_case(case, ev=None, scratch=None):
                     sess.write(cur)
                     sess.restart()
             elif k == "eval_prod":
-                if order in ("same_after", "never"):
+                if cur_order[0] in ("same_after", "never"):
                     continue
                 eval_prod(cur)
             elif k == "restart":
@@ -225,6 +247,7 @@ def check_case(case, ev=None, scratch=None):
             nt = stats["changes"] >= 1 or order.startswith("same_after")
             ev.case({k: case[k] for k in case}, nt,
                     features=["place:" + case["placement"], "order:" + order, "prod:" + case["producer"], "store:" + kind]
+                    + (["restructured-in-process" if (case["inproc"] or kind == "memory") else "restructured"] if stats.get("switches") else [])
                     + (["reader-cache-hit"] if stats["reader_hits"] else []) + (["reader-rerun"] if stats["reader_runs"] > 1 else []))
     finally:
         sess.close()
@@ -349,6 +372,138 @@ def check_dynamic(case, ev=None, scratch=None):
             scratch.clean()
 
 
+# ---- load behind a function-local import of dds (module without a top-level `import dds`) ---------------
+
+LOC_RD = """import vlog
+
+
+def h():
+{imp_h}    return {load}('/src/v')
+
+
+def reader():
+{imp_r}    vlog.rec('rd')
+    return ('rd', {ver}, {expr})
+"""
+
+LOC_M0 = """import dds
+import vlog
+from .rd import reader
+
+VS = {vs}
+
+
+@dds.data_function('/src/v')
+def prod():
+    vlog.rec('prod')
+    return ('prod', VS)
+
+
+def mk():
+    return prod()
+
+
+def root():
+    vlog.rec('root')
+{call_prod}    return dds.keep('/rd', reader)
+"""
+
+LOC_FORMS = {"import": ("    import dds\n", "dds.load"), "import_as": ("    import dds as dd\n", "dd.load"),
+             "from_import": ("    from dds import load\n", "load"), "from_import_as": ("    from dds import load as ld\n", "ld")}
+
+
+def loc_files(case, vs, ver):
+    imp, load = LOC_FORMS[case["form"]]
+    helper = case["where"] == "helper"
+    rd = LOC_RD.format(imp_h=imp, load=load, imp_r="" if helper else imp, ver=ver, expr="h()" if helper else f"{load}('/src/v')")
+    m0 = LOC_M0.format(vs=vs, call_prod="    prod()\n" if case["order"] == "same_before" else "")
+    return {"pk/__init__.py": "", "pk/rd.py": rd, "pk/m0.py": m0}
+
+
+def loc_strategy(exclude):
+    from hypothesis import strategies as st
+
+    forms = ["import"] + ([] if "local-aliased-dds-import" in exclude else ["import_as", "from_import", "from_import_as"])
+    return st.fixed_dictionaries({
+        "loc": st.just(True),
+        "form": st.sampled_from(forms),
+        "where": st.sampled_from(["reader", "helper"]),
+        "order": st.sampled_from(["same_before", "earlier_eval"]),
+        "store": st.sampled_from(STORES).map(list),
+        "edits": st.lists(st.sampled_from(["vs", "vs", "ver", "none", "revert"]), min_size=1, max_size=4),
+    })
+
+
+def check_local_import(case, ev=None, scratch=None):
+    """The reader lives in a module that never imports dds at module level; dds is imported inside the function that loads."""
+    from ..harness import proc
+    import os
+
+    own = scratch is None
+    scratch = scratch or common.Scratch("vf-c09")
+    root_dir = scratch.sub()
+    store_dir = scratch.sub()
+    w = proc.Worker()
+    tag = f"[load behind a function-local `{LOC_FORMS[case['form']][0].strip()}` in the {case['where']}/{case['order']}/{case['store'][0]}]"
+    try:
+        vs, ver = 1, 0
+        hist = [(vs, ver)]
+        mt = [1600000000]
+
+        def write(first=False):
+            mt[0] += 10
+            files = loc_files(case, vs, ver)
+            if first:
+                for rel, content in files.items():
+                    pth = os.path.join(root_dir, rel)
+                    os.makedirs(os.path.dirname(pth), exist_ok=True)
+                    open(pth, "w").write(content)
+                    os.utime(pth, (mt[0], mt[0]))
+            else:
+                w.call("write_files", files=files, reload=False, mtime=mt[0])
+                w.call("call", module="vf.harness.session", func="_reload_present", args=[["pk", "pk.rd", "pk.m0"]])
+
+        def evaluate(step):
+            if case["order"] == "earlier_eval":
+                r = w.call("eval", module="pk.m0", func="mk", style="eval")
+                if r["exc"] is not None:
+                    raise Violation(f"{tag} evaluating the producer raised {r['exc']['type']}: {r['exc']['msg'][:200]}", case)
+            r = w.call("eval", module="pk.m0", func="root", style="eval")
+            if r["exc"] is not None:
+                raise Violation(f"{tag} step {step}: evaluation raised {r['exc']['type']}: {r['exc']['msg'][:300]}", case)
+            want = ("rd", ver, ("prod", vs))
+            if r["value"] != want:
+                raise Violation(f"{tag} step {step}: the kept reader returned {r['value']!r}, /src/v now serves {('prod', vs)!r} (expected {want!r}); edits={case['edits']}", case)
+            ran = "rd" in r["log"]
+            new = (vs, ver) not in seen
+            if ran and not new:
+                raise Violation(f"{tag} step {step}: the kept reader was re-executed although /src/v is unchanged (log={r['log']})", case)
+            if new and not ran:
+                raise Violation(f"{tag} step {step}: the kept reader was not re-executed although /src/v serves a new result", case)
+            seen.add((vs, ver))
+
+        seen = set()
+        write(first=True)
+        w.call("init", root=root_dir, accepted=["pk"], store={"kind": case["store"][0], "dir": store_dir, "cache": case["store"][1]})
+        evaluate(-1)
+        for si, ed in enumerate(case["edits"]):
+            if ed == "vs":
+                vs = max(h[0] for h in hist) + 1
+            elif ed == "ver":
+                ver = max(h[1] for h in hist) + 1
+            elif ed == "revert" and len(hist) > 1:
+                vs, ver = hist[-2]
+            hist.append((vs, ver))
+            write()
+            evaluate(si)
+        if ev is not None:
+            ev.case(case, len(set(hist)) > 1, features=["load-behind-local-import", "local-import:" + case["form"], "place:local-" + case["where"], "order:" + case["order"]])
+    finally:
+        w.close()
+        if own:
+            scratch.clean()
+
+
 def enc_any(v):
     if isinstance(v, tuple):
         return ["t"] + [enc_any(x) for x in v]
@@ -364,6 +519,8 @@ def shard(idx, n, tier, seed, count):
         v = common.hyp_drive(case_strategy(), lambda c: check_case(c, ev, scratch), seed * 1000 + 900 + idx, count, ev)
         if v is None:
             v = common.hyp_drive(dyn_strategy(), lambda c: check_dynamic(c, ev, scratch), seed * 1000 + 950 + idx, max(4, count // 5), ev)
+        if v is None:
+            v = common.hyp_drive(loc_strategy(common.open_features(ID)), lambda c: check_local_import(c, ev, scratch), seed * 1000 + 970 + idx, max(3, count // 8), ev)
     finally:
         scratch.clean()
     return ev, v
@@ -377,5 +534,7 @@ def run(tier, seed, scale=1.0):
 def replay(case):
     if case.get("dyn"):
         check_dynamic(case)
+    elif case.get("loc"):
+        check_local_import(case)
     else:
         check_case(case)
